@@ -334,5 +334,5 @@ pub fn run(ctx: &mut Ctx) {
     preamble(ctx);
     let t = ctx.tier;
     ctx.run_enumerated::<Pinned>(Pinned::enumeration(t), false);
-    ctx.run_part::<Core>(t.pick(30_000, 1_500_000));
+    ctx.run_part::<Core>(t.pick(30_000, 12_000_000));
 }
